@@ -183,6 +183,7 @@ type FuncResult struct {
 	SMT         *SMT
 	Paths       int
 	ReqSat      []*Obligation
+	Observe     []obsTerm
 }
 
 func (fc *FnCtx) prepare() {
@@ -300,6 +301,16 @@ func (eng *Engine) verifyFunction(p *Pkg, key string, ct *Contract) (res *FuncRe
 		st.assume(fc.safeSpec(env, rq.E, rq.Text).T)
 	}
 	fc.entry = st.clone()
+	{
+		var names []string
+		for n := range scope {
+			names = append(names, n)
+		}
+		sort.Strings(names)
+		for _, n := range names {
+			fc.observe(fc.entry, n, scope[n], 0, &res.Observe)
+		}
+	}
 	// vacuity: the precondition must be satisfiable
 	res.ReqSat = append(res.ReqSat, &Obligation{Name: res.Key + "#vacuity:requires", Kind: "vacuity", Goal: "false", PC: append([]string(nil), st.pc...), Vacuity: true})
 
